@@ -218,6 +218,8 @@ type vGSnap struct {
 	Ticks    uint64
 	Control  map[peer.ID]struct{}
 	Gossip   map[peer.ID]struct{}
+	BP       map[peer.ID]float64 // behaviour penalty counters
+	Invalid  map[peer.ID]float64 // invalid message deliveries, summed over topics
 }
 
 func copyPeerSetMap(m map[string]map[peer.ID]struct{}) map[string]map[peer.ID]struct{} {
@@ -297,10 +299,20 @@ func (nd *vNode) Snap() *vGSnap {
 			s.Unwanted[q] = c
 		}
 		s.Scores = map[peer.ID]float64{}
+		s.BP = map[peer.ID]float64{}
+		s.Invalid = map[peer.ID]float64{}
 		if gs.score != nil {
 			for q := range gs.peers {
 				s.Scores[q] = gs.score.Score(q)
 			}
+			gs.score.Lock()
+			for q, st := range gs.score.peerStats {
+				s.BP[q] = st.behaviourPenalty
+				for _, ts := range st.topics {
+					s.Invalid[q] += ts.invalidMessageDeliveries
+				}
+			}
+			gs.score.Unlock()
 		}
 		s.Ticks = gs.heartbeatTicks
 		s.Control = map[peer.ID]struct{}{}
